@@ -1144,13 +1144,14 @@ def run(tier, seed, replay=None):
                       "modelled in Registry.v / Attr.v: _register_element_class, _get_lxml_tag, Element.from_tag, _generic_attrib_getter/_setter, "
                       "the `self.<prop> = <arg>` stores of every __init__ the translator recognises"],
         partial=True,
-        proved=["dispatch mechanism for all registration sequences (C12_registry_is_a_function, C12_first_registrant_wins, C12_known_tag_dispatches, C12_unknown_tag_falls_back)",
+        proved=["access paths in the model (Registry.access_run: children, parent, root, any selected node, clone): the wrapper's class is the registry's answer for its own node's tag, for every registry / tree / history, and two histories ending on one node agree (C12_access_paths_preserve_class, C12_access_paths_agree, C12_access_paths_dispatch); the model's assumption about the sources -- wrappers are only made by Element.from_tag / Element.from_tag_for_clone, self.from_tag in clone -- is the generated table wrap_sites (C12_wrap_sites_as_modelled)",
+                "dispatch mechanism for all registration sequences (C12_registry_is_a_function, C12_first_registrant_wins, C12_known_tag_dispatches, C12_unknown_tag_falls_back)",
                 "generated registry: own tags, effectiveness of every registration call, fallback, model = live dict (finite sweeps, bound = the tables)",
                 "generic attribute property laws incl. the exact exception set (C12_attr_*)",
                 "constructor arguments stored through generic properties are exposed after the whole constructor (C12_ctor_args_exposed, C12_ctor_flags_exposed); no argument dropped"],
         not_proved=["well-formedness and infoset equality of the lxml serialisation, same class and equal property values after re-parsing: differential testing (python level) on every case",
                     "class identity through children / get_elements / get_element / xpath / parent / root / clone / typed finders: observed pairs compared in Coq with the model registry, for the generated trees (depth <= 3) and the sample documents only",
-                    "arguments stored through hand-written properties, under conditions on other arguments, or used in other ways (table kinds StoredCond / NonProp / Unrecognised): differential testing only"],
+                    "arguments stored through hand-written properties, under conditions on other arguments, handed to a method (ViaHelper), stored component-wise (StoredIndexed) or used in other ways (Unrecognised): differential testing only (see ctor_table_kinds)"],
         level_note="proof for the mechanisms and the generated tables; testing (not proof) for per-class serialisation / re-parse / traversal behaviour",
         evaluations=len(cases), distinct_nontrivial=distinct, coq_terms_evaluated=len(uniq),
         receivers_overriding_an_access_path=sorted(n for n, k in ctx.classes.items() if overridden_paths(k, ctx.Element)),
